@@ -526,6 +526,7 @@ func (e *Engine) installSpecObjs(pkg *types.Package) {
 	mk("strLt", []types.Type{strT, strT}, boolT, false)
 	mk("strLower", []types.Type{strT}, strT, false)
 	mk("timeBefore", []types.Type{anyT, anyT}, boolT, false)
+	mk("lastRPCErr", nil, types.Universe.Lookup("error").Type(), false)
 	if tp := e.pkgs["time"]; tp != nil {
 		if tt := tp.Types.Scope().Lookup("Time"); tt != nil {
 			mk("lastNow", nil, tt.Type(), false)
